@@ -1517,6 +1517,25 @@ impl Machine {
             0
         }
     }
+    /// Execute a closure from the host side, between two `dsp` calls (e.g. a
+    /// task fired by the scheduler plugin).
+    ///
+    /// The audio driver has already written the input samples of the coming
+    /// `dsp` call at the current base pointer, so the closure runs in a frame of
+    /// its own just above them. Otherwise its registers would overlay the
+    /// inputs and its `Return0` would truncate them away. As for `CallCls`,
+    /// stateful calls made by the closure use the closure's own state storage
+    /// instead of aliasing the global (`dsp`) one.
+    pub fn execute_closure_from_host(&mut self, cls_i: ClosureIdx) -> ReturnCode {
+        let n_inputs = self.prog.iochannels.map_or(0, |io| io.input as u64);
+        let saved_base = self.base_pointer;
+        self.base_pointer = saved_base + n_inputs + 1;
+        self.states_stack.push(cls_i);
+        let rc = self.execute(self.get_closure(cls_i).fn_proto_pos, Some(cls_i));
+        self.states_stack.pop();
+        self.base_pointer = saved_base;
+        rc
+    }
     pub fn execute_entry(&mut self, entry: &str) -> ReturnCode {
         if let Some(idx) = self.prog.get_fun_index(entry) {
             self.execute_idx(idx)
